@@ -120,3 +120,26 @@ def shrink_list(items, still_fails, max_rounds=50):
             except Exception:
                 pass
     return items
+
+
+# ------------------------------------------------------------------ analyses table (shared by C08, C09, C10, C11)
+def _single(sc):
+    return list(sc._airplanes.keys())[0]
+
+
+ANALYSES = {
+    "stability_derivatives": lambda sc, n: sc.stability_derivatives(aircraft=n, **ALL_FRAMES),
+    "damping_derivatives": lambda sc, n: sc.damping_derivatives(aircraft=n, **ALL_FRAMES),
+    "control_derivatives": lambda sc, n: sc.control_derivatives(aircraft=n, **ALL_FRAMES),
+    "state_derivatives": lambda sc, n: sc.state_derivatives(aircraft=n),
+    "derivatives": lambda sc, n: sc.derivatives(**ALL_FRAMES),
+    "aero_center": lambda sc, n: sc.aero_center(aircraft=n),
+    "distributions": lambda sc, n: body_dist(sc),
+    "MAC": lambda sc, n: sc.MAC(aircraft=n),
+    "reference_geometry": lambda sc, n: list(sc.get_aircraft_reference_geometry(aircraft=n)),
+    "pitch_trim_noset": lambda sc, n: sc.pitch_trim(aircraft=n, set_trim_state=False),
+    "pitch_trim_orient_noset": lambda sc, n: list(sc.pitch_trim_using_orientation(aircraft=n, set_trim_state=False)),
+    "target_CL_noset": lambda sc, n: sc.target_CL(CL=0.4, set_state=False,
+                                                  control_state={k: float(v) for k, v in sc._airplanes[n].current_control_state.items()}),
+}
+SINGLE_ONLY = ("pitch_trim_noset", "pitch_trim_orient_noset", "target_CL_noset", "pitch_trim", "pitch_trim_orient", "target_CL")
